@@ -33,7 +33,7 @@ from collections import defaultdict
 
 from fim.user.topology import ExperimentTopology
 from fim.user.node import Node
-from fim.user.network_service import NetworkService, ServiceType
+from fim.user.network_service import NetworkService, PortMirrorService, ServiceType
 from fim.user.component import Component
 from fim.graph.slices.networkx_asm import NetworkxASM
 from fim.slivers.topology_diff import TopologyDiff
@@ -68,6 +68,7 @@ class LogCollector:
         BaseSliver: "base_sliver",
         Node: "node",
         NetworkService: "ns",
+        PortMirrorService: "ns",
         Component: "component"
     }
 
